@@ -116,6 +116,7 @@ UNITS = {
     "starmap": ("starmap", {"func": tsum}, "V", "S", False),
     "collect": ("collect", {}, "A", "V", False),
     "union1": ("union", {}, "A", "A", False),
+    "sink_fn": ("sink", {"func": ident}, "A", "X", False),
 }
 
 USER_FUNC_KEYS = ("func", "predicate", "key")
@@ -138,7 +139,7 @@ def out_type(name, tin):
 
 def chains(length, names=None):
     """All type-compatible chains of `length` units fed with scalars."""
-    names = names or sorted(UNITS)
+    names = names or sorted(n for n in UNITS if n != "sink_fn")
     out = []
 
     def rec(prefix, t):
@@ -285,7 +286,7 @@ class Obs:
 
 
 def run_both(shard, vals, srcs=None, nmds=None, flushes=None, mask=None, with_ref=False,
-             order=None, on_step=None):
+             order=None, on_step=None, on_built=None):
     """Run the real pipeline and the reference on the same inputs.
 
     vals   : element values (symbolic ints)
@@ -311,6 +312,8 @@ def run_both(shard, vals, srcs=None, nmds=None, flushes=None, mask=None, with_re
         callbacks = []
         srcidx = sources_of(base)
         collects = [i for i, (kd, _, _) in enumerate(base) if kd == "collect"]
+        if on_built is not None:
+            on_built(real)
     obs.world = world
     obs.real = real
     obs.ref = ref
